@@ -12,6 +12,9 @@
                                                       `Evenio/Proofs/SlotMapGen.lean`)
   sparse_map.rs -> Evenio/Generated/SparseMapGen.lean (`SparseMap::{get, insert, remove}`, same translator;
                                                       `Evenio/Proofs/SparseMapGen.lean`)
+  entity.rs   -> Evenio/Generated/EntityGen.lean      (`ReservedEntities::{reserve, spawn_all, refresh}`, `Entities::add_with`,
+                                                      same translator, calling the functions of SlotMapGen;
+                                                      `Evenio/Proofs/EntityGen.lean`)
 
 Each extraction either succeeds (file rewritten, status "extracted") or fails (the committed fallback copy
 `*.lean.fallback` is installed, status "failed: <why>").  Status is written as JSON to stdout / --status.
@@ -600,6 +603,28 @@ def extract_sparse_map():
                        ["get", "insert", "remove"])
 
 
+def extract_entity():
+    """entity.rs: `ReservedEntities::{reserve, spawn_all, refresh}` and `Entities::add_with`; the structs `Entities` and
+    `ReservedEntities` are emitted as Lean structures; the slot-map functions they call are the translated ones of
+    `Generated/SlotMapGen.lean` (`Evenio/Proofs/EntityGen.lean` ties them to the slot-map hand model)."""
+    return run_rs2lean("src/entity.rs",
+                       ["ReservedEntities", "Entities::add_with", "reserve", "spawn_all", "refresh",
+                        "--namespace", "Evenio.Gen.Entity",
+                        "--import", "Evenio.Generated.Rs2LeanPrelude", "--import", "Evenio.Generated.SlotMapGen",
+                        "--import", "Evenio.Model.Storage", "--open", "Evenio.Rs2Lean",
+                        "--struct", "Entities", "--struct", "ReservedEntities",
+                        "--type", "SlotMap=Evenio.SlotMap Evenio.Loc", "--type", "EntityLocation=Evenio.Loc",
+                        "--type", "EntityId=Evenio.Key", "--type", "Key=Evenio.Key",
+                        "--type", "NextKeyIter=Evenio.Gen.SlotMap.NextKeyIter",
+                        "--prim", "::EntityId(Key) -> EntityId=_",
+                        "--prim", "NextKeyIter::next(&mut self, &SlotMap<EntityLocation>) -> Outcome<Option<Key>>"
+                                  "=Evenio.Gen.SlotMap.NextKeyIter.next",
+                        "--prim", "SlotMap::next_key_iter(&self) -> NextKeyIter<EntityLocation>=Evenio.Gen.SlotMap.next_key_iter",
+                        "--prim", "SlotMap::insert_with(&mut self, impl FnOnce(Key) -> EntityLocation) -> Option<Key>"
+                                  "=Evenio.Gen.SlotMap.insert_with"],
+                       ["Entities.add_with", "reserve", "spawn_all", "refresh"])
+
+
 def main():
     status_path = None
     if "--status" in sys.argv:
@@ -608,7 +633,7 @@ def main():
     status = {}
     for name, fn in [("AccessTables", extract_access), ("Gates", extract_gates), ("Sites", extract_sites),
                      ("HandlerListGen", extract_funcs), ("SlotMapGen", extract_slot_map),
-                     ("SparseMapGen", extract_sparse_map)]:
+                     ("SparseMapGen", extract_sparse_map), ("EntityGen", extract_entity)]:
         target = os.path.join(OUT, name + ".lean")
         fallback = os.path.join(OUT, name + ".lean.fallback")
         old = open(target).read() if os.path.exists(target) else None
